@@ -1010,7 +1010,7 @@ func (a *nilAn) fixpoint() {
 						a.mayRetNil[fn][k] = why
 						changed = true
 					}
-					if errIdx >= 0 && !a.b.definitelyNonNilErr(retVal(r, errIdx), r.Block(), 0) {
+					if errIdx >= 0 && !a.b.definitelyNonNilErr(retVal(r, errIdx), r.Block(), 0) && !a.errNonNilWhereResultNil(retVal(r, errIdx), r.Block()) {
 						onlyWithErr = false
 					}
 				}
@@ -1126,4 +1126,36 @@ func singleStore(al *ssa.Alloc) bool {
 		}
 	}
 	return n == 1
+}
+
+// errNonNilWhereResultNil: errV is the error a callee handed back together with a result that
+// it hands back nil only with an error, and blk lies where that result was tested and found
+// nil: the error is not nil there (`doc, err := n.decode(); if doc == nil { return nil, err }`).
+func (a *nilAn) errNonNilWhereResultNil(errV ssa.Value, blk *ssa.BasicBlock) bool {
+	ex, ok := errV.(*ssa.Extract)
+	if !ok {
+		return false
+	}
+	call, ok := ex.Tuple.(*ssa.Call)
+	if !ok {
+		return false
+	}
+	f := call.Call.StaticCallee()
+	if f == nil {
+		return false
+	}
+	for j, only := range a.nilOnlyWithErr[f] {
+		if !only || j == ex.Index {
+			continue
+		}
+		for _, ex0 := range extractOf(call, j) {
+			for _, t := range nilTests(blk.Parent(), ex0) {
+				nilSucc := t.Blk.Succs[1-t.NonNilSucc]
+				if nilSucc == blk || edgeDominates(t.Blk, 1-t.NonNilSucc, blk) {
+					return true
+				}
+			}
+		}
+	}
+	return false
 }
